@@ -231,6 +231,8 @@ def _predicate_shape(fi, node_cls: str, inner_pos: int) -> Optional[Tuple[int, b
 
 
 def check_special_cases(ctx):
+    from ..common import exit_exprs as _exits
+
     repo = ctx.repo
     arms = _arms(repo, f"{SE}:expression_from_sympy")
     # ---- x * (1 / y)
@@ -297,10 +299,19 @@ def check_special_cases(ctx):
                 a, b = (norm(x) for x in calls[0].args[1].elts)
                 ok = a == f"expression_from_sympy({p}.args[{1 - K}])" and b in (f"expression_from_sympy(_negate_sympy_expr({p}.args[{K}]))", f"expression_from_sympy(-{p}.args[{K}])", f"expression_from_sympy({p}.args[{K}] * -1)", f"expression_from_sympy({p}.args[{K}] * (-1))")
                 detail = f"predicate finds the negated term at position {K}; consumer emits sub({a}, {b}): minuend must be operand {1 - K}, subtrahend the negation of operand {K}"
-            ctx.check(ok, R3, add.key + ":sub", f"sub(operand {1 - K}, -(operand {K}))", detail, add)
+            if detail.startswith("no sub emission"):
+                ctx.undecided(R3, add.key + ":sub", "cannot find `FunctionCall('sub', (minuend, subtrahend))` under `if is_addition_of_negation(...)`", add)
+            else:
+                ctx.check(ok, R3, add.key + ":sub", f"sub(operand {1 - K}, -(operand {K}))", detail, add)
             other = [c for c in body_walk(add.node) if isinstance(c, ast.Call) and dotted(c.func) == "FunctionCall" and const_str(c.args[0]) == "add"]
-            ok = len(other) == 1 and norm(other[0].args[1]) == f"expression_from_sympy({p}.args)"
-            ctx.check(ok, R3, add.key + ":add", "otherwise add(all terms)", "the general sum does not carry all terms of the sympy node", add)
+            if len(other) != 1:
+                ctx.undecided(R3, add.key + ":add", "cannot find the single `FunctionCall('add', ...)` emission", add)
+            else:
+                ok = norm(other[0].args[1]) == f"expression_from_sympy({p}.args)"
+                ctx.check(ok, R3, add.key + ":add", "otherwise add(all terms)", "the general sum does not carry all terms of the sympy node", add)
+            # every exit of the arm is a function call over the node's operands (same reason as for products)
+            odd = [e for e in _exits(add.node) if not (isinstance(e, ast.Call) and dotted(e.func) == "FunctionCall")]
+            ctx.check(not odd, R3, add.key + ":exits", "every exit of the sum arm is a FunctionCall over the node's operands", f"the sum arm has an exit returning {short(odd[0], 70) if odd else ''}, which is not a function call over the operands of the sum", add)
     neg = repo.func(f"{SE}:_negate_sympy_expr") if repo.has_func(f"{SE}:_negate_sympy_expr") else None
     if neg is not None:
         ctx.analysed(neg)
